@@ -203,6 +203,7 @@ def _plain_list(idx):
     return [C.plain(v) for v in idx]
 
 
+@C.sync_scheduler
 def check(spec):
     import dask
 
